@@ -129,10 +129,17 @@ def segy_route(ctx, rng, k):
     plan.set_final(ntr - 1)
     mksegy.make_segy(sgy, arr, ilines=il, xlines=xl, fmt=5, headers=plan, skip=skip, two_d=(kind == '2d'),
                      dt_us=int(rng.choice([4000, 2000, 1000])), t0=int(rng.choice([0, 100])))
+    blank = None
+    if kind == '2d' and ntr >= 5 and (k // 5) % 2 == 0:
+        # a null trace inside the line: its 240-byte header is entirely zero (every field, also those constant elsewhere)
+        blank = int(rng.integers(1, ntr - 1))
+        with open(sgy, 'r+b') as f:
+            f.seek(3600 + blank * (240 + 4 * n[2]))
+            f.write(bytes(240))
     src = view.segy_view(sgy)
     hyp = segycases.heuristic_hypothesis(src['headers']) if len(src['headers']) == src['tracecount'] else False
     for mode in MODES:
-        desc = {'kind': kind, 'n': n, 'traces': ntr, 'mode': mode, 'plan': [(c, kk) for c, kk, _ in plan.plan],
+        desc = {'kind': kind, 'n': n, 'traces': ntr, 'mode': mode, 'plan': [(c, kk) for c, kk, _ in plan.plan], 'blank_trace': blank,
                 'il': il[:2], 'xl': xl[:2], 'heuristic_hypothesis': hyp}
         ctx.case((kind, n, mode, tuple(desc['plan']), tuple(il[:2]), tuple(xl[:2])), sample=desc)
         ctx.stats['mode_' + mode] += 1
